@@ -72,7 +72,7 @@ def check_c18(prop, tier):
         h, s = run_codec(work, tier, res, faults=True)
         if s:
             res.add(evaluations=s["parseinputs"], distinct_nontrivial=s["distinctinputs"], families=s["parsefamilies"],
-                    rule="every generated valid text/JSON encoding of every codec type, mutated at every character position by deletion, duplication, insertion and substitution of one of 13 characters (2-, 3-, 4-byte characters, separators, NUL, digit, quote) and truncated at every position, plus long insertions (runs of 13..256 characters ending in a 2-, 3- or 4-byte character, and 5000-character runs) after every separator, fed to the parser of its type; every unmodified encoding cross-fed to every other parser; 35 hand-written specials (empty, unbalanced, 10^4-deep brackets, 40-digit numbers, repeated/unknown keys) fed to every entry point. distinct = distinct (parser, input) pairs by hash; non-trivial = all (each is a separate malformed or foreign input)")
+                    rule="every generated valid text/JSON encoding of every codec type, mutated at every character position by deletion, duplication, insertion and substitution of one of 13 characters (2-, 3-, 4-byte characters, separators, NUL, digit, quote) and truncated at every position, plus long insertions (runs of 13..256 characters ending in a 2-, 3- or 4-byte character, and 5000-character runs) after every separator, 1..16 further key=value pairs / JSON members (unknown and repeated), fed to the parser of its type; every unmodified encoding cross-fed to every other parser; 35 hand-written specials (empty, unbalanced, 10^4-deep brackets, 40-digit numbers, repeated/unknown keys) fed to every entry point. distinct = distinct (parser, input) pairs by hash; non-trivial = all (each is a separate malformed or foreign input)")
             if s["badparse"]:
                 l = first_line(h, s["firstbadparse"])
                 res.violation("parser %s/%s panicked on %d inputs of family %s" % (l["ty"], l["entry"], l["panic"], l["mut"]), {"driver": "codec", "parser": l["ty"], "entry": l["entry"], "input": l["first"]})
